@@ -1,6 +1,8 @@
 HOOK_COMMITS = []
 NOTES = "Model checking = bounded exhaustive exploration of the real code against reference models; see DESIGN.md. Exit 0 held / 1 violation / >=2 machinery failure."
 ENGINES = [
+    {"name": "vc_io", "path": "harness/src/engines/vc_io.rs", "serves_properties": ["C13"],
+     "kind_free_text": "exhaustive enumeration of payload/stream/code/settings/executor tuples and short test-case sequences through real executors + bash"},
     {"name": "vc_render", "path": "harness/src/engines/vc_render.rs", "serves_properties": ["C19"],
      "kind_free_text": "stateless exhaustive enumeration of outcome lists x renderer parameters through the four renderers"},
     {"name": "vc_update", "path": "harness/src/engines/vc_update.rs", "serves_properties": ["C10"],
@@ -87,5 +89,10 @@ CHECKS.append(
      "technique": "bounded exhaustive enumeration of outcome lists (diffs produced by the real validate over a text alphabet of multi-byte / wide / control / long lines) x renderer settings through all four real renderers, with structural oracles on the rendering",
      "text": "Every enumerated outcome list is rendered by pretty (colour and monochrome), diff, json and yaml: no panic, Ok(text); pretty and diff must show exactly one +/- line per unexpected line / unmatched expectation of each failed test containing its text, no section for passed tests, a summary that adds up; json/yaml must parse back to one entry per outcome with the right result kind.",
      "note": "lists with mixed location presence excluded; needle text computed with scrut's own escaper (C11 covers it)"})
+CHECKS.append(
+    {"id": "C13", "engine": "vc_io", "category": "exploration", "design_ref": "DESIGN.md §2 C13",
+     "technique": "bounded exhaustive enumeration of (payload x stream x exit code x settings x executor) and of test-case sequences through the real executors with the real bash, compared with a byte-exact reference of the documented transformations",
+     "text": "Every combination of the payload alphabet (binary, CRLF shapes, ANSI, divider look-alikes, unterminated lines, ...), target stream, exit code, output_stream/keep_crlf/strip_ansi setting and executor (per-process and single-script) is executed with /bin/bash; recorded stdout/stderr/exit code must equal the reference exactly, per test case also in sequences; placeholder-looking and quote-heavy text must reach the shell verbatim; replace_crlf is compared with an iterative reference on all short byte strings and at sizes up to 10^6 line endings.",
+     "note": "/bin/bash of this image; sizes at decades; strip-ansi third-party over-stripping recorded as known finding"})
 claimed = {c["id"] for c in CHECKS}
 NOT_APPLICABLE = [{"property_id": p, "reason": "check not built yet (work in progress; planned in DESIGN.md)"} for p in ALL if p not in claimed]
